@@ -54,7 +54,7 @@ func (h *vhHB) tick() int {
 
 // C16: the heartbeat of a local entity (sequential histories; ticks delivered by the harness).
 func VH_c16_heartbeat() {
-	scen := []string{"ticks", "restart", "stop", "remove-entity", "stop-start", "restart-twice-at-once"}
+	scen := []string{"ticks", "restart", "stop", "remove-entity", "stop-start", "restart-twice-at-once", "remove-entity-again-after-restart"}
 	cs := verifrt.ShardChoice("case", len(vhHBTimeouts)*len(scen))
 	timeout, sc := vhHBTimeouts[cs/len(scen)], scen[cs%len(scen)]
 	verifrt.Scenario(fmt.Sprintf("%s/timeout=%v", sc, timeout))
@@ -107,8 +107,15 @@ func VH_c16_heartbeat() {
 		verifrt.Assert("still-running-after-restart", hm.IsHeartbeatRunning())
 		refresh("restart-leaves-exactly-one-heartbeat-stream", 1)
 		refresh("restart-leaves-exactly-one-heartbeat-stream", 1)
-	case "stop", "remove-entity", "stop-start":
-		if sc == "remove-entity" {
+	case "stop", "remove-entity", "stop-start", "remove-entity-again-after-restart":
+		if sc == "remove-entity-again-after-restart" {
+			// the application still holds the removed entity, starts its heartbeat again and removes it once more
+			h.w.L.RemoveEntity(h.e)
+			_ = hm.StartHeartbeat()
+			verifrt.WaitIdle()
+			verifrt.Assert("running-again-after-start", hm.IsHeartbeatRunning())
+		}
+		if sc == "remove-entity" || sc == "remove-entity-again-after-restart" {
 			h.w.L.RemoveEntity(h.e)
 		} else {
 			hm.StopHeartbeat()
